@@ -11,6 +11,18 @@ CHECKS = {
          "Exploration: ~0.8 M (quick) / 25 M (thorough) seeded strings and paths driven through the real ParsePath/String/MarshalText; each call is judged two-sidedly against a hand-written recogniser with big-integer decimal values. Held-on-observed, not a proof; the grammar-aware generator concentrates on leading zeros, the 2^31 boundary and malformed separators.",
          "Trusts math/big decimal parsing and the recogniser (self-tested on literals at the start of every run). Unicode decimal digits other than ASCII are not generated.",
          "DESIGN.md §3 C10"),
+ "C01": ("runtime monitor: every ed25519.Verify call judged two-sidedly (accept iff ZIP-215 predicate) by an independent big-integer model; one-sided against crypto/ed25519",
+         "Exploration: ~24 k (quick) / ~1.2 M (thorough) structured triples (honest, bit flips, S+jL for all j, 8x8 torsion shifts of A and R, every encoding of every small-order point, all y>=p encodings, undecodable points, wrong lengths, random) driven through the real Verify; verdict compared both ways with a math/big ZIP-215 model. Held-on-observed.",
+         "Trusts SHA-512, math/big and the model in harness/oracle/ed (self-tested on RFC 8032 vectors, crypto/ed25519 and the 8 known small-order encodings at every run). Accepting inputs with a non-canonical non-small-order A/R cannot be constructed (needs a discrete log).",
+         "DESIGN.md §3 C01"),
+ "C07": ("runtime monitor: byte equality of keys and signatures against crypto/ed25519 and an independent RFC 8032 big-integer signer, over every message length 0..300",
+         "Exploration: ~13 k (quick) / ~750 k (thorough) (seed, message) pairs through NewKeyFromSeed, Sign, PrivateKey.Sign, GenerateKey, Verify; outputs compared byte for byte with crypto/ed25519 and (on a quarter of the cases) with the model signer; determinism, pre-hash refusal and short-reader failure monitored.",
+         "Trusts crypto/ed25519, SHA-512 and harness/oracle/ed (self-tested on RFC 8032 vectors).",
+         "DESIGN.md §3 C07"),
+ "C18": ("runtime monitor: Prove bytes and two-sided Verify/decoding verdicts judged by an independent RFC 9381 model; uniqueness monitor over accepted proof variants",
+         "Exploration: ~13 k (quick) / ~700 k (thorough) cases: proofs for alpha of length 0..200 incl. multi-round try-and-increment, all single-bit flips of honest proofs, torsion-shifted / non-canonical / undecodable Gamma, s boundary values, all small-order and y>=p key encodings, forged proofs that verify iff validate_key is dropped, valid malleable-Gamma proofs (hash must not change), random and wrong-length strings; decode strictness two-sided.",
+         "Trusts SHA-512, math/big and harness/oracle/ecvrf (self-tested on the three RFC 9381 TAI examples). Non-canonical prime-order keys with known discrete log cannot be constructed; canonical-key checking is observed on the reject side only.",
+         "DESIGN.md §3 C18"),
 }
 
 NOT_BUILT_REASON = "check not built yet in this round (planned in DESIGN.md §3; runtime monitoring does apply)"
